@@ -137,12 +137,15 @@ theorem c08_x_sortedDocs_order :
       writeSortedDocsGuard = "!f.Config.SkipSortDocs" := by decide
 
 /-- `writeSealedFraction`: sorted docs first, then the index sections in the order `writeIndex` models; a block is
-`Seek` + `Write`, the registry `Seek, Write, Seek, Write` -/
+`Seek` + `Write`, the registry `Seek, Write, Seek, Write` (the last `Write` is the 16-byte header at offset 0), and in
+both functions the error of each call is returned at once - which is what `W.run` models -/
 theorem c08_x_sections_order :
     writeSealedCalls = ["writeSortedDocs", "writer.writeInfoBlock", "writer.writeTokensBlocks", "writer.writeTokenTableBlocks",
       "writer.writePositionsBlock", "writer.writeIDsBlocks", "writer.writeLIDsBlocks", "writer.WriteRegistryBlock"] ∧
       writeBlockCalls = ["w.writeSeeker.Seek", "w.writeSeeker.Write"] ∧
-      writeRegistryCalls = ["w.writeSeeker.Seek", "w.writeSeeker.Write", "w.writeSeeker.Seek", "w.writeSeeker.Write"] := by decide
+      writeRegistryCalls = ["w.writeSeeker.Seek", "w.writeSeeker.Write", "w.writeSeeker.Seek", "w.writeSeeker.Write"] ∧
+      -- statement order inside the two functions: every call's error is returned before the next statement runs
+      writeBlockFlow = ["Seek!", "Write!"] ∧ writeRegistryFlow = ["Seek!", "Write!", "Seek!", "Write!"] := by decide
 
 /-- `proxyFrac.Seal` releases the active fraction only after `frac.Seal` returned and the sealed object exists;
 `Release` removes `.meta` unless `KeepMetaFile` and `.docs` unless `SkipSortDocs` -/
